@@ -363,6 +363,36 @@ class FnAnalysis:
                 s |= self.origins(x)
         return s
 
+    def source_calls(self, e, _seen=None):
+        """All Call nodes from which the value of expression `e` may derive, following local variable
+        bindings transitively (for `for x in a.b()` -> the `b` call, etc.)."""
+        out = []
+        seen = _seen if _seen is not None else set()
+        stack = [e]
+        while stack:
+            n = stack.pop()
+            if id(n) in seen:
+                continue
+            seen.add(id(n))
+            k = n.get("k")
+            if k is None or k.startswith("#"):
+                if k == "#closure_arg":
+                    call = n["call"]
+                    for idx, a in enumerate(call["args"]):
+                        if idx != n["skip"]:
+                            stack.append(a)
+                continue
+            if k == "Call":
+                out.append(n)
+            if k == "Var":
+                for src, pre in self.env.get(n["var"], []):
+                    stack.append(src)
+                continue
+            if k == "Closure":
+                continue
+            stack.extend(subexprs(n))
+        return out
+
     def touches(self, qualifies):
         """For every call whose callee satisfies qualifies(call) -> list of (call, origins of its non-closure args)."""
         out = []
